@@ -95,7 +95,7 @@ func (s *Scheduler) Step(ctx context.Context) StepState {
 			return StateNextTask(def.Task{}, err)
 		}
 		nextScheduled, ok := s.repo.NextScheduled()
-		if !ok || !nextScheduled.Equal(next.ScheduledAt) {
+		if !ok || !nextScheduled.Equal(next.ScheduledAt) || next.ScheduledAt.After(s.clock.Now()) {
 			// The timer event is consumed. Let the next Step restart the timer.
 			s.setGetNextResult(def.Task{}, ErrScheduleStoppedOrChanged)
 			return StateNextTask(def.Task{}, ErrScheduleStoppedOrChanged)
